@@ -60,7 +60,7 @@ def run_battery(drv, binary, seed, n_docs, n_built):
 
 def run(run, binary, drv):
     names = QUICK if run.tier == "quick" else list(CONFIGS)
-    n_docs, n_built = (6000, 2500) if run.tier == "quick" else (60000, 25000)
+    n_docs, n_built = (12000, 6000) if run.tier == "quick" else (200000, 100000)
     t0 = time.time()
     with ThreadPoolExecutor(max_workers=4) as ex:
         builds = list(ex.map(lambda n: build_cfg(drv, n, CONFIGS[n][0]), names))
